@@ -294,7 +294,10 @@ def run_items(b, exe, d, name, setup, items, item_ms=3000, timeout=240):
                 for k in range(skip, len(items)):
                     fh.write("#ITEM %d %s\n%s\n#END\n" % (k, items[k][0], items[k][1]))
             cmd = [exe, path2, "--item-ms", str(item_ms), "--heap", str(4 << 20), "--max", str(256 << 20)]
-        r = R.run(b, None, raw_cmd=cmd, env_extra={"CHIBI_VERIF_HEAPCHECK": "16"}, timeout=timeout, cwd=d)
+        # ASan frames are several times larger than normal ones: give the sanitized harness a stack that is larger by
+        # the same factor, so that recursion the interpreter bounds itself (SEXP_MAX_ANALYZE_DEPTH) is not reported
+        r = R.run(b, None, raw_cmd=cmd, env_extra={"CHIBI_VERIF_HEAPCHECK": "16"}, timeout=timeout, cwd=d,
+                  stack_mb=512 if b.variant == "asan-rz" else None)
         cur = None
         done = False
         last = None
